@@ -69,6 +69,9 @@ pub struct Honest {
     pub cid_gen: CidGenKind,
     pub cid_lifetime_ms: Option<u64>,
     pub server_migration: bool,
+    /// max_udp_payload_size advertised by the server endpoint / the client endpoints
+    pub max_udp_payload: [u16; 2],
+    pub retry_lifetime_ms: u64,
 }
 
 fn gen_plans(r: &mut Rng, k: &Knobs, peer: &TcfgP, own: &TcfgP) -> Vec<StreamPlan> {
@@ -257,6 +260,8 @@ impl Honest {
             cid_gen: CidGenKind::Seq,
             cid_lifetime_ms,
             server_migration: true,
+            max_udp_payload: [1472, 1472],
+            retry_lifetime_ms: 15_000,
         }
     }
 
@@ -271,17 +276,20 @@ impl Honest {
         srv.policy = self.policy;
         srv.app = self.srv_app.clone();
         srv.migration = self.server_migration;
+        srv.retry_lifetime_ms = self.retry_lifetime_ms;
         let mut specs = vec![];
         let mut s0 = EpSpec::new(0, Some(srv));
         s0.cid_len = self.cid_len[0];
         s0.cid_gen = self.cid_gen;
         s0.cid_lifetime_ms = self.cid_lifetime_ms;
+        s0.max_udp_payload = self.max_udp_payload[0];
         specs.push(s0);
         for i in 0..self.cli_t.len() {
             let mut s = EpSpec::new(i + 1, None);
             s.cid_len = self.cid_len[1];
             s.cid_gen = self.cid_gen;
             s.cid_lifetime_ms = self.cid_lifetime_ms;
+            s.max_udp_payload = self.max_udp_payload[1];
             specs.push(s);
         }
         let mut w = World::new(self.seed, self.lane, specs, self.net.clone(), self.drv.clone());
